@@ -339,6 +339,14 @@ def guard_atoms(test: ast.AST) -> list[tuple[str, bool]]:
             neg = isinstance(e.ops[0], (ast.Is, ast.Eq))
             out.append((txt(e.left), pol != neg))
         elif isinstance(e, ast.Compare) and len(e.ops) == 1 and \
+                isinstance(e.ops[0], ast.IsNot):
+            out.append((f'{txt(e.left)} is {txt(e.comparators[0])}',
+                        not pol))
+        elif isinstance(e, ast.Compare) and len(e.ops) == 1 and \
+                isinstance(e.ops[0], ast.NotEq):
+            out.append((f'{txt(e.left)} == {txt(e.comparators[0])}',
+                        not pol))
+        elif isinstance(e, ast.Compare) and len(e.ops) == 1 and \
                 isinstance(e.ops[0], ast.NotIn):
             out.append((f'{txt(e.left)} in {txt(e.comparators[0])}',
                         not pol))
